@@ -78,7 +78,8 @@ _no_optional_shortcircuit()
 _init_on_type()
 
 NAMES = ("x", "y", "a", "p", "q", "c", "w")
-READ = "<P:{{ x }}|{{ y }}|{{ a }}|{{ p }}|{{ q }}|{{ c }}|{{ w }}|{{ forloop.index }}|{{ tablerowloop.index }}>"
+READ = "<P:{{ x }}|{{ y }}|{{ a }}|{{ p }}|{{ q }}|{{ c }}|{{ w }}|{{ forloop.index }}|{{ tablerowloop.index }}{{ forloop.parentloop.index }}{{ forloop.parentloop.length }}{{ forloop.parentloop.parentloop.index }}{{ tablerowloop.col }}>"
+# (forloop.parentloop.*, tablerowloop.col of the CALLER must never be visible: they always print nothing)
 # the body assigns / captures / increments every name it has read
 WRITE_ALL = ("{% assign x = 'X' %}{% capture y %}Y{% endcapture %}{% assign a = 'A' %}{% assign p = 'B' %}"
              "{% assign q = 'C' %}{% assign w = 'D' %}{% assign c = 'E' %}"
